@@ -295,26 +295,32 @@ def engine_seq(pid, tier, evidence=True):
     if not evidence:
         shutil.rmtree(wd, ignore_errors=True)
         return dict(found=found, notes=notes, coverage={k: coverage[k] for k in ("states", "transitions", "tours", "histories", "events_judged", "events_relevant_to_property")})
-    # fault facet: a GetChildVersion during which a storage step fails must answer with an error or correctly
-    if pid in ("C01", "C08"):
+    # fault facet: a read (GetChildVersion / GetSnapshot) during which a storage step fails must answer with an error or correctly
+    if pid in ("C01", "C08", "C11"):
         fj = []
-        for i, (hist, lvl) in enumerate(((FAULT_HISTORIES[0][:4], "http"), (FAULT_HISTORIES[0][:6], "lib"), (FAULT_HISTORIES[1][:5], "http"))):
-            for argk in ("nil", "mid", "old", "latest", "rnd"):
+        rop, pred = ("GetSnapshot", "C11f") if pid == "C11" else ("GetChildVersion", "C08f")
+        # (history, level): C11 wants states with and without a stored snapshot, and a client the server never saw
+        hists = ((FAULT_HISTORIES[0][:4], "http"), (FAULT_HISTORIES[0][:6], "lib"), (FAULT_HISTORIES[1][:5], "http")) if pid != "C11" else \
+                ((FAULT_HISTORIES[0][:3], "http"), (FAULT_HISTORIES[0][:8], "lib"), (FAULT_HISTORIES[0][:8], "http"), (FAULT_HISTORIES[0][:2], "http"),
+                 (FAULT_HISTORIES[1][:6], "http"), ([], "http"))
+        for i, (hist, lvl) in enumerate(hists):
+            for argk in (("nil", "mid", "old", "latest", "rnd") if pid != "C11" else ("nil",)):
                 fj.append({"id": f"gf{i}-{argk}", "mode": "sweep", "backend": "sqlite", "instances": "shared", "cfg": {"days": 14, "versions": 100},
-                           "seed": [{"op": o, "arg": ARGK_SYM[a]} for o, a in hist], "reqs": [{"op": "GetChildVersion", "argk": argk, "lvl": lvl}],
-                           "follow": [], "io_variants": "quick", "io_stride": 2, "max_rounds": 120})
-        wdf = workdir("gcvfault-" + pid)
+                           "seed": [{"op": o, "arg": ARGK_SYM[a]} for o, a in hist], "reqs": [{"op": rop, "argk": argk, "lvl": lvl}],
+                           "follow": ([{"op": "GetSnapshot"}] if pid == "C11" else []), "io_variants": "quick", "io_stride": 2, "max_rounds": 120})
+        wdf = workdir("readfault-" + pid)
         ffiles, nfr, _pj = run_conc_jobs(binary, fj, wdf)
         fviols, ftot = judge(ffiles, spec="TraceConc.tla")
         for v in fviols:
-            if "C08f" not in v["names"] or len(found) >= 40:
+            if pred not in v["names"] or len(found) >= 40:
                 continue
             e = load_event(v["file"], v["line"])
-            found.append(dict(sig=dict(engine="gcvfault", resp=e["resps"][0]["kind"], sweep=e.get("info", {}).get("sweep")),
-                              what=f"{pid}: GetChildVersion {e['reqs'][0]} with fault {e.get('info')} answered {e['resps'][0]} although the child lookup failed / "
-                                   f"the stored chain is latest={e['seed']['l']} versions={[(x['vid'], x['parent']) for x in e['seed']['v']]}",
-                              replay=dict(engine="conc", predicate="C08f", round=e)))
-        coverage["fault_facet"] = dict(rounds_judged=ftot, sweep_jobs=len(fj))
+            found.append(dict(sig=dict(engine="readfault", resp=e["resps"][0]["kind"], sweep=e.get("info", {}).get("sweep")),
+                              what=f"{pid}: {rop} {e['reqs'][0]} with fault {e.get('info')} answered {e['resps'][0]} although a storage step failed; "
+                                   f"follow-ups {[(f['resp']['kind']) for f in e['follow']]}; "
+                                   f"the stored state is latest={e['seed']['l']} snapshot={e['seed']['s']} versions={[(x['vid'], x['parent']) for x in e['seed']['v']]}",
+                              replay=dict(engine="conc", predicate=pred, round=e)))
+        coverage["fault_facet"] = dict(rounds_judged=ftot, sweep_jobs=len(fj), request=rop)
         shutil.rmtree(wdf, ignore_errors=True)
     # the repository's own tests as traces (hook build)
     tf, tcov = tests_facet(pid)
@@ -343,7 +349,9 @@ def http_collect(pid, viols, jobs):
             continue
         if pid not in v["names"]:
             if set(v["names"]) & NOTE_NAMES and len(notes) < 10:
-                notes.append(f"model/code divergence without a {pid} violation at run {v['run']} step {v['i']}: {v['names']}")
+                ev0 = load_event(v["file"], v["line"])
+                notes.append(f"model/code divergence without a {pid} violation at run {v['run']} step {v['i']}: {v['names']} "
+                             f"req={json.dumps(ev0.get('req'))} hg={json.dumps(ev0.get('hg'))} resp={json.dumps(ev0.get('resp'))} http={json.dumps(ev0.get('http'))}"[:900])
             continue
         ev = load_event(v["file"], v["line"])
         job = jobs_by_run.get(v["run"], {})
@@ -487,6 +495,19 @@ def engine_http(pid, tier):
             js = httpplan.grammar_jobs(rng, cases, run0, ("inmemory", "sqlite"))
             run0 += len(js)
             jobs += js
+    if pid in ("C14", "C15", "C20"):
+        # request headers without a protocol meaning (content negotiation, conditionals, ranges, proxies ...) on every route
+        hc = cases if pid != "C14" else httpplan.grammar_cases(1, [0, 1, 20], [1, 3])[0]
+        for drv in ("http", "sock"):
+            js, nx = httpplan.header_jobs(rng, hc, run0, prefix="xh-" + drv)
+            for j in js:
+                j["driver"] = drv
+                if pid == "C14" and drv == "http":
+                    j["twin"] = True
+            run0 += len(js)
+            jobs += js
+            ncases += nx
+        stats["extra_header_cases"] = dict(header_sets=len(httpplan.EXTRA_HEADERS), requests=2 * nx)
     if pid == "C20":
         js = httpplan.outage_jobs(run0)          # 500 responses: every storage transaction fails
         run0 += len(js)
@@ -769,7 +790,7 @@ def engine_lock(pid, tier):
 
 # ---------------------------------------------------------------- CONC engine (C03; schedule facets of C11, C01, C02, C07)
 
-CONC_SHAPES_HTTP = [("AddVersion", "latest"), ("AddVersion", "nil"), ("AddVersion", "old"), ("GetChildVersion", "latest"),
+CONC_SHAPES_HTTP = [("AddVersion", "latest"), ("AddVersion", "nil"), ("AddVersion", "old"), ("AddVersion", "rnd"), ("GetChildVersion", "latest"),
                     ("GetChildVersion", "nil"), ("GetChildVersion", "mid"), ("AddSnapshot", "latest"), ("AddSnapshot", "mid"),
                     ("GetSnapshot", "nil")]
 CONC_SEEDS = {
@@ -967,7 +988,7 @@ def engine_conc(pid, tier, evidence=True, focus=None):
     if only_av:
         mconfigs = mconfigs[:1]
     for backend, nreq, shapes, seeds in mconfigs:
-        out, scheds, st = conc_model(backend, True, nreq, shapes, seeds)
+        out, scheds, st = conc_model(backend, True, nreq, shapes, seeds, timeout=900 if tier == "quick" else 3600)
         if not tlc_ok(out):
             raise ToolError(f"TLC reports an error on the concurrency model ({backend},{shapes},{seeds}):\n" + ("\n".join(tlc_error_summary(out)) or out[-3000:]))
         model_runs.append(dict(backend=backend, nreq=nreq, shapes=shapes, seeds=seeds, states=st["distinct"], transitions=st["generated"], schedules=len(scheds)))
@@ -982,7 +1003,7 @@ def engine_conc(pid, tier, evidence=True, focus=None):
             cfg = write_cfg(f"conc_live_{os.getpid()}_{backend}.cfg", conc_cfg_text(backend, True, 2, "ShapesAV", "SeedsNew", faults=0,
                             invariants="MutualExclusion", emit=False).replace("SPECIFICATION Spec", "SPECIFICATION FairSpec")
                             .replace("CHECK_DEADLOCK FALSE", "PROPERTIES Live_Done Live_LockFree\nCHECK_DEADLOCK FALSE"))
-            out = tlc("MC_Conc.tla", cfg, workers=8, timeout=2400)
+            out = tlc("MC_Conc.tla", cfg, workers=8, timeout=3600)
             if not tlc_ok(out):
                 raise ToolError("TLC reports an error on the liveness model:\n" + ("\n".join(tlc_error_summary(out)) or out[-3000:]))
             st = tlc_stats(out)
@@ -1107,7 +1128,7 @@ def engine_fault(pid, tier):
     for backend, shapes in (("sqlite", "ShapesHttp"), ("sqlite", "ShapesLib")):
         cfg = write_cfg(f"fault_{os.getpid()}_{shapes}.cfg", conc_cfg_text(backend, True, 1, shapes, "SeedsAll", faults=(1 if tier == "quick" else 2),
                                                                          invariants="MutualExclusion Inv_C05", emit=False))
-        out = tlc("MC_Conc.tla", cfg, workers=4, timeout=900)
+        out = tlc("MC_Conc.tla", cfg, workers=4, timeout=900 if tier == "quick" else 3600)
         if not tlc_ok(out):
             raise ToolError("TLC reports an error on the fault model:\n" + ("\n".join(tlc_error_summary(out)) or out[-3000:]))
         st = tlc_stats(out)
@@ -1118,7 +1139,7 @@ def engine_fault(pid, tier):
         cfg = write_cfg(f"fault_live_{os.getpid()}.cfg", conc_cfg_text("sqlite", True, 2, "ShapesAV", "SeedsNew", faults=1,
                                                                        invariants="MutualExclusion", emit=False).replace("SPECIFICATION Spec", "SPECIFICATION FairSpec")
                         .replace("CHECK_DEADLOCK FALSE", "PROPERTIES Live_Done Live_LockFree\nCHECK_DEADLOCK FALSE"))
-        out = tlc("MC_Conc.tla", cfg, workers=8, timeout=1500)
+        out = tlc("MC_Conc.tla", cfg, workers=8, timeout=3600)
         if not tlc_ok(out):
             raise ToolError("TLC reports an error on the fault liveness model:\n" + ("\n".join(tlc_error_summary(out)) or out[-3000:]))
         st = tlc_stats(out)
@@ -1138,6 +1159,14 @@ def engine_fault(pid, tier):
                              "seed": seedsteps, "reqs": [{"op": op, "argk": argk, "lvl": lvl}], "follow": FOLLOW,
                              "double": tier == "thorough" or (h == 0 and lvl == "http" and i in (0, 3)),
                              "io_variants": "full" if tier == "thorough" else "quick", "max_rounds": 200})
+    # ---- lock contention: somebody else holds the write lock for k lock attempts (k around the multiples of one begin's patience)
+    for h, hist in enumerate(hists[:1] if tier == "quick" else hists):
+        for lvl in ("http", "lib"):
+            for i, (op, argk) in enumerate(hist):
+                if tier == "quick" and not (op.startswith("Add") or i == 6):
+                    continue
+                jobs.append({"id": f"l{h}-{lvl}-{i}", "mode": "lock", "backend": "sqlite", "instances": "shared", "cfg": {"days": 14, "versions": 100},
+                             "seed": [{"op": o, "arg": ARGK_SYM[a]} for o, a in hist[:i]], "reqs": [{"op": op, "argk": argk, "lvl": lvl}], "follow": FOLLOW, "max_rounds": 120})
     t1 = time.time()
     files, nrounds, perjob = run_conc_jobs(binary, jobs, wd)
     t2 = time.time()
@@ -1171,6 +1200,8 @@ def engine_fault(pid, tier):
                     rule="for every request of the histories (each on the state left by its predecessors; HTTP and library entry): a fault-free probe counts its storage "
                          "calls and I/O calls; then every storage call fails before / after taking effect (trait level, gating Storage wrapper) and every I/O call "
                          "(pread/pwrite/fsync/ftruncate/open/unlink on the SQLite files, LD_PRELOAD shim) fails with EIO once / ENOSPC persistently; selected double faults; "
+                         "lock contention: the next k attempts to take the SQLite write lock are refused (fcntl on the -shm file), k around every multiple 1..6 of the number "
+                         "one transaction begin waits out; the follow-up requests go through the very server object that served the faulted request; "
                          "distinct = distinct (request, fault placement); TLC judges response, resulting state and three follow-up requests (C05_Round)",
                     samples=samples, outcome_counts={f"{k[0]}/{k[1]}": n for k, n in kinds.items()},
                     model_runs=model_runs, model_states=states, model_transitions=transitions, sweep_jobs=len(jobs),
@@ -1467,6 +1498,22 @@ def engine_bytes(pid, tier):
                 pl.append((rng.choice(C06_CLASSES), n, [b - a for a, b in zip([0] + cuts, cuts)], rng.random() < 0.5))
             for i in range(0, len(pl), 16):
                 chain_job(pl[i:i + 16], backend, driver, "ch")
+        if driver != "lib":
+            # uploads that break in the middle (transport error after the first piece): nothing of them may ever be served
+            def ab(route, size, arg):
+                return {"op": "Raw", "c": 1, "arg": arg, "hg": {"route": route, "method": "POST", "cid": "valid", "pid": "valid", "ct": "right",
+                                                                 "size": size, "chunks": 1, "abort": True, "cls": "no"}}
+            lat = {"sym": "latest"}
+            steps = [{"op": "AddVersion", "c": 1, "arg": {"sym": "nil"}, "gen": gen("random", 40)}]
+            for sz in (3, 30, 9000, 200000):
+                steps += [ab("av", sz, lat), {"op": "GetChildVersion", "c": 1, "arg": lat}, ab("as", sz, lat), {"op": "GetSnapshot", "c": 1}]
+            steps += [{"op": "AddVersion", "c": 1, "arg": lat, "gen": gen("random", 50)}, {"op": "GetChildVersion", "c": 1, "arg": {"sym": "anc", "k": 1}},
+                      {"op": "AddSnapshot", "c": 1, "arg": lat, "gen": gen("random", 60)}, ab("as", 300, lat), {"op": "GetSnapshot", "c": 1},
+                      ab("av", 300, lat), {"op": "GetChildVersion", "c": 1, "arg": lat}, {"op": "Reopen"}, {"op": "Walk", "c": 1, "from": {"sym": "base"}},
+                      {"op": "GetSnapshot", "c": 1}]
+            jobs.append({"id": f"abort{run0}", "run": run0, "backend": backend, "driver": driver, "cfg": {"days": 14, "versions": 100},
+                         "nclients": 1, "steps": steps, "first_free": 1, "kind": "bytes"})
+            run0 += 1
         # 1 MiB +- 1 (own jobs: the payloads are held several times)
         if (backend, driver) in (("sqlite", "http"), ("sqlite", "sock"), ("inmemory", "http")) or tier == "thorough":
             chain_job([(rng.choice(C06_CLASSES), sz, ([524288] if driver != "lib" else None), True) for sz in sizes_big], backend, driver, "big")
